@@ -15,14 +15,15 @@ ID = "C06"
 RULE = (
     "Stateful, model-based: a Hypothesis RuleBasedStateMachine drives ONE retained trunk/heads graph through a "
     "history of rules: backward(sub-list of losses/features, aggregator, sub-list of parameters | None, "
-    "retain_graph=True, chunk size), mtl_backward(...), zero a .grad, set it to None, set it to a drawn tensor, "
+    "retain_graph=True, chunk size), mtl_backward(...), zero a .grad, set it to None, set it to a drawn tensor or to a NON-CONTIGUOUS view of a wider buffer, "
     "in-place .grad.mul_(c) / .add_(c), repeat the last call (deterministic aggregators: position coding, Constant, "
     "Mean, Sum, UPGrad, DualProj, TrimmedMean, Krum). Model: dict leaf -> expected .grad. Invariants after every "
     "step: (a) each requested .grad equals bitwise previous + its slice of the vector returned by the (recording) "
     "aggregator, whose input matrix equals the dual-number oracle Jacobian; task leaves receive previous + oracle "
     "gradient; (b) the VALUE of every tensor (leaves, intermediates, outputs) and the matrix handed to the aggregator "
     "are bitwise unchanged; (c) the .grad of every non-requested tensor is bitwise unchanged and keeps its storage; "
-    "(d) a .grad created by the step shares its "
+    "(d) an existing .grad (incl. non-contiguous ones: a column of a wider buffer, a transposed view) receives the "
+    "update in place - it is not replaced by another tensor - and a .grad created by the step shares its "
     "storage with no other live tensor (leaves, other grads, intermediates, the aggregator's input and output); "
     "(e) a repeated call returns bitwise the same aggregated vector. Non-trivial = a history containing both an "
     "accumulation onto an existing non-zero .grad and a creation from None. Distinct = distinct (program, history)."
@@ -34,7 +35,7 @@ LEVEL_TEXT = (
 )
 LEVEL_NOTE = "Trusted: the dual-number oracle, data_ptr()/untyped_storage() to observe aliasing, torch.equal for bitwise equality."
 TECHNIQUE = "stateful model-based testing (hypothesis.stateful.RuleBasedStateMachine) against a reference model of .grad"
-REQUIRED_CLASSES = {"accumulate-onto-existing": 1, "create-from-none": 1, "op:repeat": 1, "op:mtl": 1, "op:backward": 1,
+REQUIRED_CLASSES = {"non-contiguous-grad": 1, "accumulate-onto-existing": 1, "create-from-none": 1, "op:repeat": 1, "op:mtl": 1, "op:backward": 1,
                     "op:edit": 1}
 
 AGG_EXCLUDE = ()
@@ -53,6 +54,7 @@ class Exec:
         self.values0 = {ref: t.detach().clone() for ref, t in self.g.values.items()}
         self.last_call = None
         self.last_vec = None
+        self.buffers = {}
         self.accumulated = self.created = False
         self.n_steps = 0
         self.dead = False
@@ -69,6 +71,11 @@ class Exec:
         for i, leaf in enumerate(self.g.leaves):
             gb, pb = before[i]
             if i in requested:
+                if gb is not None and leaf.grad is not None:
+                    # "add to an existing .grad instead of replacing it": the tensor that was there must receive the
+                    # update in place (an optimizer, a fused buffer or the user may hold a reference / a view of it)
+                    out.check(leaf.grad.data_ptr() == pb, "existing-grad-replaced-instead-of-accumulated",
+                              f"{label}: leaf {i} already had a .grad; after the call .grad is another tensor")
                 continue
             same = (leaf.grad is None and gb is None) or (leaf.grad is not None and gb is not None and _same(leaf.grad, gb)
                                                            and leaf.grad.data_ptr() == pb)
@@ -108,7 +115,7 @@ class Exec:
             out.cls("op:repeat")
             st_ = dict(self.last_call, _repeat=True)
             op = st_["op"]
-        if op in ("zero", "none", "set", "mul", "add"):
+        if op in ("zero", "none", "set", "setview", "mul", "add"):
             out.cls("op:edit")
             leaf = g.leaves[st_["leaf"]]
             if op == "zero" and leaf.grad is not None:
@@ -117,6 +124,17 @@ class Exec:
                 leaf.grad = None
             elif op == "set":
                 leaf.grad = torch.tensor(st_["vals"], dtype=leaf.dtype).reshape(leaf.shape)
+            elif op == "setview":
+                # a non-contiguous .grad: one column of a wider (fused) buffer, or a transposed view
+                base = torch.tensor(st_["vals"], dtype=leaf.dtype).reshape(leaf.shape)
+                if leaf.ndim == 2 and st_.get("transpose"):
+                    buf = base.t().contiguous()
+                    leaf.grad = buf.t()
+                else:
+                    buf = torch.stack([base, base + 1.0], dim=-1)
+                    leaf.grad = buf[..., 0]
+                self.buffers[st_["leaf"]] = buf
+                out.cls("non-contiguous-grad")
             elif op == "mul" and leaf.grad is not None:
                 leaf.grad.mul_(st_["c"])
             elif op == "add" and leaf.grad is not None:
@@ -251,13 +269,15 @@ def _machine(report):
             ks = [None, 1] + list(range(1, m + 2))
             self._do({"op": "mtl", "agg": jdcheck.jd_aggregator(rng, m, 2), "k": ks[int(rng.integers(0, len(ks)))]})
 
-        @rule(seed=st.integers(0, 2**32 - 1), kind=st.sampled_from(["zero", "none", "set", "mul", "add"]))
+        @rule(seed=st.integers(0, 2**32 - 1), kind=st.sampled_from(["zero", "none", "set", "setview", "setview", "mul", "add"]))
         def edit_grad(self, seed, kind):
             rng = np.random.default_rng(seed)
             rg = [i for i, lf in enumerate(self.prog["leaves"]) if lf["rg"]]
             i = rg[int(rng.integers(0, len(rg)))]
             st_ = {"op": kind, "leaf": i}
-            if kind == "set":
+            if kind == "setview":
+                st_["transpose"] = bool(rng.integers(0, 2))
+            if kind in ("set", "setview"):
                 st_["vals"] = (rng.integers(-6, 7, size=P.numel(self.prog["leaves"][i]["shape"])) / 2.0).tolist()
             if kind in ("mul", "add"):
                 st_["c"] = [-2.0, -0.5, 0.5, 3.0][int(rng.integers(0, 4))]
